@@ -874,6 +874,7 @@ class Gen:
             [(0, 16), (16, 0), (16, 16)], [(0, 0)], [(0, 8), (0, 0), (8, 8), (4, 8), (100, 1), (99, 1), (101, 1)],
             [(0, 1), (1, 1), (2, 1), (3, 1), (4, 1), (5, 1), (6, 1), (7, 1), (8, 1), (9, 1)], [(9, 1), (8, 1), (7, 1), (6, 1), (5, 1), (4, 1), (3, 1), (2, 1), (1, 1), (0, 1)],
             [(0, 40), (8, 8), (24, 8), (48, 8)], [(48, 8), (0, 8), (0, 56)],
+            [(0, 9), (8, 8)], [(0, 16), (15, 1)], [(15, 1), (0, 16), (16, 1)], [(0, 1), (0, 1), (1, 1)],     # the second starts exactly ON / just after the first one's last byte
         ]
         for k in range(6 if self.tier == "quick" else 60):
             n = self.rng.range(12, 20)
